@@ -85,7 +85,7 @@ theorem gstep_eq_pstep (kind : Kind) (h : Nat → Nat) (ps : PState) (s : State)
     obtain ⟨hr, hself⟩ := hp.get t
     have hi := hs.get t
     simp only [gstep, pstep, hav, Bool.not_true, Bool.false_eq_true, if_false]
-    cases kind <;> simp only [gen_map_append hr hi, gen_set_append hr hi k v, gen_pool_append _ _ k v] <;>
+    cases kind <;> simp only [gen_map_append hr hi, gen_set_append hr hi k v, gen_pool_append hr hi k v] <;>
       (cases (ps.get t).insert _ h (.stl (ps.get t).self) k v <;> simp)
   | prepend t k v =>
     obtain ⟨hr, hself⟩ := hp.get t
